@@ -1201,6 +1201,30 @@ def extract_h2_reader(repo, parents):
             "def h2EventsRecheckedUnderReadLock : Bool := " + ("true" if ok and not reads_outside else "false")]
 
 
+def extract_merge_headers(repo, parents):
+    """C11: `merge_headers` is the function the model knows - it works on *copies* of its arguments (the configured proxy headers are
+    shared by every request) and returns defaults-not-overridden + overrides"""
+    tree = _parse(repo, "httpcore/_async/http_proxy.py")
+    fn = _find_func(tree, "merge_headers")
+    body = [ast.unparse(x) for x in fn.body if not (isinstance(x, ast.Expr) and isinstance(x.value, ast.Constant))]
+    want = ["default_headers = [] if default_headers is None else list(default_headers)",
+            "override_headers = [] if override_headers is None else list(override_headers)",
+            "has_override = set((key.lower() for key, value in override_headers))",
+            "default_headers = [(key, value) for key, value in default_headers if key.lower() not in has_override]",
+            "return default_headers + override_headers"]
+    ok = body == want
+    # the call sites: what is merged into what
+    calls = []
+    for n in ast.walk(tree):
+        if isinstance(n, ast.Call) and ast.unparse(n.func) == "merge_headers":
+            calls.append(", ".join(ast.unparse(a) for a in n.args))
+    sites_ok = sorted(calls) == sorted(["self._proxy_headers, request.headers", "[(b'Host', target), (b'Accept', b'*/*')], self._proxy_headers"])
+    return ["/-- `merge_headers` has the body the model `Establish.mergeHeaders` stands for (copies of both arguments, overridden defaults",
+            "dropped case-insensitively, defaults before overrides; no in-place change of an argument), and it is called with",
+            "(proxy headers, request headers) for forwarded requests and (Host + Accept, proxy headers) for CONNECT -/",
+            "def mergeHeadersAsModelled : Bool := " + ("true" if ok and sites_ok else "false")]
+
+
 def extract_backend_write(repo, parents):
     tree = _parse(repo, "httpcore/_backends/sync.py")
     fn = _find_func(tree, "write", cls="SyncStream")
@@ -1224,7 +1248,7 @@ def extract_life(repo, parents):
         raise ExtractError(str(e))
 
 
-SECTIONS = [extract_establish_locking, extract_models, extract_pool, extract_timeouts, extract_schemes, extract_exception_maps, extract_h2, extract_unasync, extract_h1_reuse, extract_pool_locking, extract_life, extract_backend_write, extract_h2_reader, extract_pool_pass_follows]
+SECTIONS = [extract_establish_locking, extract_models, extract_pool, extract_timeouts, extract_schemes, extract_exception_maps, extract_h2, extract_unasync, extract_h1_reuse, extract_pool_locking, extract_life, extract_backend_write, extract_h2_reader, extract_pool_pass_follows, extract_merge_headers]
 
 
 def generate(repo):
